@@ -160,7 +160,8 @@ def script_obj(spec, raw=False):
 def plutus_body(name: str) -> bytes:
     """the deterministic script bytes of scenario.plutus_script, re-derived here (independent of pycardano)"""
     ver, tag = name.split(":", 1)
-    return hashlib.blake2b(("script/" + name).encode(), digest_size=40).digest() + bytes([len(tag) % 7])
+    key = tag[tag.index("="):] if "=" in tag else None
+    return hashlib.blake2b(("script/" + (key or name)).encode(), digest_size=40).digest() + bytes([len(key or tag) % 7])
 
 
 def ref_script_hash(lang: int, body: bytes) -> bytes:
@@ -371,6 +372,8 @@ def gen(rng, force=None):
 
     versions = f.get("versions") or rng.choice([[1], [2], [3], [1, 2], [2, 3], [1, 3], [1, 2, 3], [2], [3], [2, 3]])
     names = ["a", "b", "c", "dd", "e"]
+    if len(versions) > 1 and rng.random() < 0.35:
+        names = ["=s", "=s", "=t", "a", "b"]       # the same compiled bytes under several languages (different script hashes)
 
     def plutus_spec():
         return "p%d:%s" % (rng.choice(versions), rng.choice(names))
